@@ -284,11 +284,11 @@ class Decider:
             results.append((None, {}, {}, (frozenset({UNKNOWN}),)))
         return results
 
-    def func_outcomes(self, fi: FuncInfo, aliases: frozenset, depth: int = 0) -> frozenset:
+    def func_outcomes(self, fi: FuncInfo, aliases: frozenset, depth: int = 0, env0: dict | None = None) -> frozenset:
         """Values the function may return under the valuation."""
         flow = self.prog.flow(fi)
         out: set = set()
-        for end, _env, _benv, outs in self.walk(fi, flow.cfg.entry, None, aliases, depth):
+        for end, _env, _benv, outs in self.walk(fi, flow.cfg.entry, None, aliases, depth, env0=env0):
             if end is not None and end.kind == "stmt" and isinstance(end.ast, ast.Return) and outs:
                 out |= outs[-1]
             elif end is None or end.kind == "exit":
